@@ -115,6 +115,27 @@ func ruleTVi(c *Ctx) {
 	} else {
 		c.Undecided("T-vi", "VarInt.Length", token.NoPos, "not found")
 	}
+	// UpperLimitInc: growth of the encoding when the value is incremented = Length(v+1) - Length(v), -1 at the maximum
+	if fn := c.P.Func("", "VarInt", "UpperLimitInc"); fn != nil {
+		paths, err := enumPaths(fn.Blocks[0], nil, nil, 64)
+		var rows []tableRow
+		if err == nil {
+			rows, err = scalarTable(paths, "p0", u64, nil, func(d *DPath) string { s, _ := retConst(d, 0); return s })
+			if err != nil {
+				// the switch converts the receiver: uint64(p0) is p0 for this unsigned type
+				rows, err = scalarTable(paths, "uint64(p0)", u64, nil, func(d *DPath) string { s, _ := retConst(d, 0); return s })
+			}
+		}
+		max := new(big.Int).SetUint64(^uint64(0))
+		tableCheck(c, "T-vi", "VarInt.UpperLimitInc", fn, rows, err, func(v *big.Int) string {
+			if v.Cmp(max) == 0 {
+				return "-1"
+			}
+			return fmt.Sprint(varintSpecLen(new(big.Int).Add(v, big.NewInt(1))) - varintSpecLen(v))
+		})
+	} else {
+		c.Undecided("T-vi", "VarInt.UpperLimitInc", token.NoPos, "not found")
+	}
 	// Bytes: leaf = prefix marker / width / returned length
 	if fn := c.P.Func("", "VarInt", "Bytes"); fn != nil {
 		paths, err := enumPaths(fn.Blocks[0], nil, nil, 64)
